@@ -49,7 +49,14 @@ impl Script {
     }
 }
 
+thread_local! {
+    /// upper-case mode (`A`, `S`): bundles 2i and 2i+1 are two bundles of the SAME locale (a source with several bundles
+    /// per locale); observations are unchanged - the harness tells them apart by the order in which they are reported
+    static DUP_LOCALES: std::cell::Cell<bool> = const { std::cell::Cell::new(false) };
+}
+
 fn locale_name(j: usize) -> String {
+    let j = if DUP_LOCALES.with(|d| d.get()) { j / 2 } else { j };
     let a = (b'a' + (j / 26) as u8) as char;
     let b = (b'a' + (j % 26) as u8) as char;
     format!("{}{}", a, b)
@@ -266,7 +273,15 @@ fn show_done(api: char, d: usize, out: &Out) -> String {
         match e {
             LocalizationError::MissingMessage { id, locale: Some(l) } => {
                 if id == deep {
-                    got.push(locale_index(l));
+                    if DUP_LOCALES.with(|d| d.get()) {
+                        // the first report of locale L is bundle 2L, the second bundle 2L+1 (a third is shown as such)
+                        let li = locale_index(l);
+                        let first = 2 * li;
+                        let seen = got.iter().filter(|g| **g < 1000 && **g / 2 == li).count();
+                        got.push(if seen < 2 { first + seen } else { 1000 + first });
+                    } else {
+                        got.push(locale_index(l));
+                    }
                 }
             }
             LocalizationError::MissingMessage { locale: None, .. } => {}
@@ -354,10 +369,11 @@ fn parse_header(h: &str) -> Option<(bool, usize, Vec<usize>, usize, bool)> {
         return None;
     }
     let sync = match p[0] {
-        "a" => false,
-        "s" => true,
+        "a" | "A" => false,
+        "s" | "S" => true,
         _ => return None,
     };
+    DUP_LOCALES.with(|d| d.set(p[0] == "A" || p[0] == "S"));
     let k: usize = p[1].parse().ok()?;
     let (needs, e) = p[2].split_once('/')?;
     let needs: Vec<usize> = if needs == "-" {
